@@ -48,6 +48,14 @@ fn input_kinds() -> Vec<InputKind> {
     for (label, name) in [("success-xsd-extensionless-name", "service"), ("success-xsd-name-with-two-dots", "svc.v1.xsd"), ("success-xsd-name-with-leading-dot", ".hidden.xsd")] {
         v.push(InputKind { label, files: vec![(name.into(), to_files(&s1)[0].1.clone())], start: name.into(), start_exists: true, should_succeed: true });
     }
+    // unreferenced siblings that are not regular files: a dangling link, a link to a directory, a link to the start file
+    {
+        let mut f = to_files(&s1);
+        f.push(("dangling.xsd".into(), b("@@symlink:/nonexistent/zv-target".to_string())));
+        f.push(("dirlink.xsd".into(), b("@@symlink:.".to_string())));
+        f.push(("filelink.xsd".into(), b(format!("@@symlink:{}", s1.start))));
+        v.push(InputKind { label: "success-xsd-next-to-symlink-siblings", files: f, start: s1.start.clone(), start_exists: true, should_succeed: true });
+    }
     v.push(InputKind { label: "missing-input", files: vec![("other.xsd".into(), to_files(&s1)[0].1.clone())], start: "a.xsd".into(), start_exists: false, should_succeed: false });
     {
         let mut f = to_files(&s1);
@@ -91,7 +99,7 @@ fn input_kinds() -> Vec<InputKind> {
 
 const SPELLINGS: [&str; 5] = ["absolute", "relative-with-dir", "dot-slash", "bare-name-in-cwd", "dir-dotdot-dir"];
 const OUTPUT_MODES: [&str; 2] = ["explicit", "default"];
-const PREEXISTING: [&str; 3] = ["absent", "shorter", "longer"];
+const PREEXISTING: [&str; 5] = ["absent", "shorter", "longer", "expected-output-plus-tail", "expected-output-cut-short"];
 const SENTINEL: &str = "\n// ZV-STALE-SENTINEL-TAIL\n";
 
 struct Row {
@@ -109,7 +117,7 @@ struct RowResult {
     cmdline: String,
 }
 
-fn run_row(idx: usize, row: &Row, kind: &InputKind) -> RowResult {
+fn run_row(idx: usize, row: &Row, kind: &InputKind, expected: Option<&Vec<u8>>) -> RowResult {
     let base = PathBuf::from(format!("/verif/work/c17/r{idx}"));
     let _ = std::fs::remove_dir_all(&base);
     // every directory of the path carries a dot, so "the last dot of the argument" is not always the extension's
@@ -118,7 +126,11 @@ fn run_row(idx: usize, row: &Row, kind: &InputKind) -> RowResult {
     std::fs::create_dir_all(&indir).unwrap_or_else(|e| machinery(&format!("mkdir: {e}")));
     std::fs::create_dir_all(&outdir).unwrap_or_else(|e| machinery(&format!("mkdir: {e}")));
     for (n, bytes) in &kind.files {
-        std::fs::write(indir.join(n), bytes).unwrap_or_else(|e| machinery(&format!("write: {e}")));
+        if let Some(target) = bytes.strip_prefix(b"@@symlink:") {
+            std::os::unix::fs::symlink(String::from_utf8_lossy(target).as_ref(), indir.join(n)).unwrap_or_else(|e| machinery(&format!("symlink: {e}")));
+        } else {
+            std::fs::write(indir.join(n), bytes).unwrap_or_else(|e| machinery(&format!("write: {e}")));
+        }
     }
     let (cwd, input_arg): (PathBuf, String) = match row.spelling {
         "absolute" => (base.clone(), indir.join(&kind.start).to_string_lossy().to_string()),
@@ -132,6 +144,9 @@ fn run_row(idx: usize, row: &Row, kind: &InputKind) -> RowResult {
     let pre_bytes: Option<Vec<u8>> = match row.pre {
         "absent" => None,
         "shorter" => Some(b("// old\n".to_string())),
+        // an old file that BEGINS with what is about to be written (code appended by hand), or is a prefix of it
+        "expected-output-plus-tail" => Some(expected.map(|e| [e.as_slice(), SENTINEL.as_bytes()].concat()).unwrap_or_else(|| b(format!("// old\n{SENTINEL}")))),
+        "expected-output-cut-short" => Some(expected.map(|e| e[..e.len() * 2 / 3].to_vec()).unwrap_or_else(|| b("// ol".to_string()))),
         _ => Some(b(format!("{}{}", "// old generated file, much longer than any output of the generator\n".repeat(3000), SENTINEL))),
     };
     if let Some(p) = &pre_bytes {
@@ -181,7 +196,7 @@ pub fn check(tier: &str) -> i32 {
     let mut lib_out: Vec<Option<Vec<u8>>> = vec![];
     for k in &kinds {
         if k.should_succeed {
-            let case = Case { files: k.files.iter().map(|(n, bts)| (n.clone(), String::from_utf8_lossy(bts).to_string())).collect(), start: k.start.clone() };
+            let case = Case { files: k.files.iter().filter(|(_, bts)| !bts.starts_with(b"@@symlink:")).map(|(n, bts)| (n.clone(), String::from_utf8_lossy(bts).to_string())).collect(), start: k.start.clone() };
             match run_inproc(&case) {
                 Outcome::Ok(s) => lib_out.push(Some(s.into_bytes())),
                 o => {
@@ -204,7 +219,7 @@ pub fn check(tier: &str) -> i32 {
             }
         }
     }
-    let results: Vec<RowResult> = rows.par_iter().enumerate().map(|(i, r)| run_row(i, r, &kinds[r.kind])).collect();
+    let results: Vec<RowResult> = rows.par_iter().enumerate().map(|(i, r)| run_row(i, r, &kinds[r.kind], lib_out[r.kind].as_ref())).collect();
     let _ = std::fs::remove_dir_all("/verif/work/c17");
     let mut distinct = std::collections::BTreeSet::new();
     for (row, res) in rows.iter().zip(results.iter()) {
@@ -264,7 +279,7 @@ pub fn check(tier: &str) -> i32 {
     }
     rep.set("evaluations", json!(rows.len()));
     rep.set("distinct_nontrivial", json!(distinct.len()));
-    rep.set("rule", json!("complete product: 14 input outcomes (7 succeed, one of them with an import cycle through the start file, three with file-name forms: no extension, two dots, leading dot; the input directory's name contains a dot; 7 fail at successive stages: missing input, non-UTF-8 sibling, malformed XML, unresolved import, unresolved reference, a part that refers to a global attribute, unsupported binding) x 5 path spellings x {--output, default .rs path} x pre-existing output {absent, shorter, longer with sentinel tail}; every row is one process run of the real zeep binary in a scratch directory; all rows are distinct and non-trivial"));
+    rep.set("rule", json!("complete product: 15 input outcomes (8 succeed, one next to sibling *.xsd entries that are a dangling symlink, a symlink to a directory and a symlink to the start file, one of them with an import cycle through the start file, three with file-name forms: no extension, two dots, leading dot; the input directory's name contains a dot; 7 fail at successive stages: missing input, non-UTF-8 sibling, malformed XML, unresolved import, unresolved reference, a part that refers to a global attribute, unsupported binding) x 5 path spellings x {--output, default .rs path} x pre-existing output {absent, shorter, longer with sentinel tail, the expected output followed by a sentinel tail, the first two thirds of the expected output}; every row is one process run of the real zeep binary in a scratch directory; all rows are distinct and non-trivial"));
     rep.set("exhaustive", json!(true));
     rep.assume("the zeep binary is rebuilt from /repo/zeep by the check script before the run");
     rep.assume("success rows are compared with the library output computed in-process from the same file contents");
